@@ -204,3 +204,75 @@ func HarnessFileRestart() {
 	vAssert(err != nil, "c12.file.restart.stale-entry-served")
 	_ = time.Now
 }
+
+// "all interleavings of concurrent operations ending in quiescence": one operation of another
+// request (store / failing store / delete of the same or another key, a cleanup cycle, an
+// eviction) is placed at every lock and file-system boundary of a store, overwrite, failing
+// store or delete; once both have returned the invariant I holds.
+func stepInterleaved(mem *MemoryCache[vmeta], file *FileCache[vmeta]) {
+	var c cacheUnderTest = mem
+	if mem == nil {
+		c = file
+	}
+	vClockFreeze(true)
+	now := time.Now()
+	if symChoice(2) == 1 {
+		c.Cache(vKeys[0], &symReader{data: []byte{1, 1}, failAt: -1}, now.Add(time.Hour), vmeta{Ver: 1})
+		vReach("key-present")
+	}
+	same := symChoice(2) == 1
+	k2 := vKeys[1]
+	if same {
+		k2 = vKeys[0]
+		vReach("same-key")
+	}
+	kind := symChoice(5)
+	vInterpose(func() {
+		switch kind {
+		case 0:
+			c.Cache(k2, &symReader{data: []byte{9, 9, 9}, failAt: -1}, now.Add(time.Hour), vmeta{Ver: 9})
+		case 1:
+			c.Cache(k2, &symReader{data: []byte{9, 9, 9}, failAt: 1}, now.Add(time.Hour), vmeta{Ver: 9})
+		case 2:
+			c.Delete(k2)
+		case 3:
+			if mem != nil {
+				mem.janitor.cleanExpiredEntries()
+			} else {
+				file.janitor.cleanExpiredEntries()
+			}
+		default:
+			if mem != nil {
+				mem.janitor.evict(1)
+			} else {
+				file.janitor.evict(1)
+			}
+		}
+	}, vParam("interpose", 1))
+	name := ""
+	switch symChoice(3) {
+	case 0:
+		c.Cache(vKeys[0], &symReader{data: []byte{5, 5, 5, 5}, failAt: -1, chunk: 2}, now.Add(time.Hour), vmeta{Ver: 5})
+		name = "store"
+	case 1:
+		c.Cache(vKeys[0], &symReader{data: []byte{5, 5, 5, 5}, failAt: 2, chunk: 2}, now.Add(time.Hour), vmeta{Ver: 5})
+		name = "failing-store"
+	default:
+		c.Delete(vKeys[0])
+		name = "delete"
+	}
+	vInterpose(nil, 0)
+	vReach("op-" + name)
+	if vInterposed() == 0 {
+		return
+	}
+	vReach("interleaved")
+	if mem != nil {
+		memInvariant(mem, "interleaved-"+name)
+	} else {
+		fileInvariant(file, "interleaved-"+name)
+	}
+}
+
+func HarnessMemStepInterleaved()  { stepInterleaved(newMem(symRange(1, 2), 1<<30), nil) }
+func HarnessFileStepInterleaved() { stepInterleaved(nil, newFile(symRange(1, 2), 1<<30)) }
